@@ -72,6 +72,10 @@ def pyval_equiv(sid, codec, **slots):
     got = enc.encode(py_tree(e.t, av), asn1Spec=mk_type(e.t))
     if got != want:
         return "encoding the Python tree with the schema differs from encoding the value object"
+    # the tree the library itself produces for the value (NULL -> None, text -> str, containers -> dict/list) is such a tree as well
+    got2 = enc.encode(native_encoder.encode(build(e.t, av)), asn1Spec=mk_type(e.t))
+    if got2 != want:
+        return "encoding the native encoder's Python tree with the schema differs from encoding the value object"
     return None
 
 
